@@ -378,6 +378,37 @@ func init() {
 					}
 				}
 			}
+			// sequences of logins started WITHOUT any query parameter (bare /oauth2/start, as the skip-provider-button
+			// redirect does): the 2nd, 3rd … login of the process must complete like the first, and each authorization
+			// request must carry exactly one challenge
+			for k := 0; k < 3; k++ {
+				bb := newBrowser()
+				sr, loc := e.startLogin(bb, "")
+				if sr.Status != 302 {
+					continue
+				}
+				if lu, err := url.Parse(loc); err == nil {
+					q := lu.Query()
+					if n := len(q["code_challenge"]); (lc.pkce != "" && n != 1) || (lc.pkce == "" && n != 0) {
+						c.violation("C05", fmt.Sprintf("authorization request of login #%d carries %d code_challenge parameters", k+1, n), map[string]interface{}{"location": loc, "cfg": fmt.Sprintf("%+v", cfg)})
+					}
+					if n := len(q["state"]); n != 1 {
+						c.violation("C03", fmt.Sprintf("authorization request of login #%d carries %d state parameters", k+1, n), map[string]interface{}{"location": loc})
+					}
+				}
+				cb, g, err := e.idp.authorize(loc, u)
+				if err != nil || g == nil {
+					continue
+				}
+				cu, _ := url.Parse(cb)
+				v := e.do(reqSpec{Target: cu.RequestURI(), Cookie: bb.cookieHeader()})
+				c.casen(fmt.Sprintf("c03|bare-start|%+v|%d", lc, k), fmt.Sprint(v.Status))
+				c.count("c03:bare-start")
+				if !hasSessionSet(v, e.opts.Cookie.Name) {
+					c.violation("C03", fmt.Sprintf("login #%d started with a bare /oauth2/start did not complete with its own unmodified state and CSRF cookie", k+1),
+						map[string]interface{}{"status": v.Status, "cfg": fmt.Sprintf("%+v", cfg), "idp_pkce_failures": fmt.Sprint(e.idp.pkceFailures)})
+				}
+			}
 			// parallel tabs: ONE browser starts three logins, then completes them one after the other, honouring every
 			// Set-Cookie (including deletions) of each completion.  With per-request CSRF cookies every one of them
 			// carries its own unmodified state and cookie, so every one must complete, in any order.
@@ -541,7 +572,7 @@ func init() {
 			e.close()
 		}
 		_ = time.Now
-		c.close([]string{"c03:established", "c03:rejected", "c03:state-variant", "nonce:echo", "nonce:raw", "pkce:S256", "kind:redirect", "kind:errorPage", "c05:rand-fault", "c05:fresh-check", "c08:no-email", "c03:sweep-state", "c03:sweep-cookie", "c03:tabs", "provider:entra-id"})
+		c.close([]string{"c03:established", "c03:rejected", "c03:state-variant", "nonce:echo", "nonce:raw", "pkce:S256", "kind:redirect", "kind:errorPage", "c05:rand-fault", "c05:fresh-check", "c08:no-email", "c03:sweep-state", "c03:sweep-cookie", "c03:tabs", "provider:entra-id", "c03:bare-start"})
 	})
 }
 
